@@ -39,7 +39,7 @@ pub fn replay(args: &Args) {
     let cases = read_cases(&args.get("in", ""));
     let out = args.get("out", "/dev/stdout");
     let limit_units = args.num("limit", 32);
-    let prefill = args.num("prefill", 20);
+    let prefill = args.num("prefill", 22);
     par_run(cases, args.num("jobs", 8), &out, move |i, case| {
         let hist = case["hist"].as_array().unwrap();
         let budget = Arc::new(MemoryBudget::with_limit(limit_units * UNIT));
@@ -123,9 +123,33 @@ pub fn replay(args: &Args) {
             }
             followed = k + 1;
         }
-        let drained = pup.drain(std::time::Duration::from_secs(2));
+        let diverged = problems.iter().any(|p| p["kind"] == "path" || p["kind"] == "blocked");
+        let drained = pup.drain(std::time::Duration::from_secs(5));
         if !drained {
             problems.push(json!({"kind": "stuck"}));
+        } else if diverged {
+            // the code left the model's path: let every call finish and judge the property on what is observed
+            let results = pup.results();
+            for t in 0..nthreads {
+                if let (Some(op), Some(v)) = (cur_op[t].take(), results[t].clone()) {
+                    let pi = POOLS.iter().position(|p| Some(*p) == op["pool"].as_str()).unwrap_or(4);
+                    let n = op["n"].as_i64().unwrap_or(0);
+                    if v == "ok" {
+                        if op["kind"] == "alloc" { granted[pi] += n } else { released[pi] += n }
+                    }
+                }
+            }
+            let used = used_units(&budget);
+            let total: i64 = used.iter().sum();
+            if total > limit_units as i64 {
+                problems.push(json!({"kind": "hard_limit_exceeded", "step": "final", "used": used, "limit": limit_units}));
+            }
+            for p in 0..5 {
+                if used[p] != granted[p] - released[p] {
+                    problems.push(json!({"kind": "accounting_broken", "step": "final", "pool": POOLS[p], "used": used[p], "granted": granted[p], "released": released[p]}));
+                    break;
+                }
+            }
         }
         drop(pup);
         if problems.is_empty() {
